@@ -245,7 +245,14 @@ def run(prog: Program, rep: Report, tier: str):
     has_constraints = any(T.contains(r, lambda s: s == ("attr", tv, "__constraints__")) for r in rets)
     rep.check(has_bound and has_any and has_constraints, "R15.2", nt.qualname, nt.loc, "TypeVars normalise to their bound, the union of their constraints, or Any", "normalize_typevar does not cover bound / constraints / Any", detail="typevar")
     af = prog.function(f"{C.INSP}.args")
-    norm = any(T.contains(r, lambda s: T.is_call_to(s, f"{C.INSP}._normalize_typevars")) for _, r in P.returns(P.paths_of(prog, af)))
+    def normalises(r):
+        # through the private generator helper, or spelled out: normalize_typevar applied to each element
+        if T.contains(r, lambda s: T.is_call_to(s, f"{C.INSP}._normalize_typevars")):
+            return True
+        return T.contains(r, lambda s: s[0] == "comp" and T.contains(s[2], lambda y: T.is_call_to(y, f"{C.INSP}.normalize_typevar") and bool(y[2]) and y[2][0][0] == "elem"))
+
+    rets_af = P.returns(P.paths_of(prog, af))
+    norm = bool(rets_af) and all(normalises(r) for _, r in rets_af)
     rep.check(norm, "R15.2", af.qualname, af.loc, "args() normalises TypeVars on every path", "args() returns raw TypeVars", detail="args-normalise")
     # unannotated constructor parameters are hinted Any (=> pass-through), whatever their default
     hs = prog.function(f"{C.INSP}._hints_from_signature")
